@@ -261,7 +261,7 @@ package cisco
 // (The step from here to "diffASAACLs never sees a standard line" needs the
 // parser invariant that an ACL is not mixed; that obligation timed out and is
 // not claimed.)
-//vc:  invariant[C08] 2 "for _, c := range al" @noStandardLineSoFar hasEq ==> (forall k int :: { al[k] } 0 <= k && k <= rangeindex ==> !strings.HasPrefix(al[k].parsed, "access-list $NAME extended ") && !strings.HasPrefix(al[k].parsed, "access-list $NAME standard "))
+//vc:  invariant[C08,C01] 2 "for _, c := range al" @noStandardLineSoFar hasEq ==> (forall k int :: { al[k] } 0 <= k && k <= rangeindex ==> !strings.HasPrefix(al[k].parsed, "access-list $NAME extended ") && !strings.HasPrefix(al[k].parsed, "access-list $NAME standard "))
 //vc:  assert[C14] at "s.delCmds(al)" @wholesaleOnlyWithoutCommonLine al[0].subCmdOf.typ.prefix == "ip access-list extended" ==> !anyEqualRange
 
 // ---- C18: a raw object is merged only once ----
@@ -341,6 +341,11 @@ package cisco
 // functions that emit commands and maintain s.subCmdOf preserves this and
 // emits a sub-command only in its parent's mode.
 //vc:ghost var devMode string
+// Commands reach the script only through the functions that keep this
+// bookkeeping (and the two sites named in the C08 note: makeEqual's "no crypto
+// map ... set ikev", the "exit" of deleteUnused): a command appended directly
+// would leave the belief about the device's mode untouched.
+//vc:only[C08,C01,C02] (*State).addChange within this package in (*State).addCmd, (*State).addToplevel, (*State).delCmds, (*State).setCmdConfMode, (*State).makeEqual, (*State).deleteUnused
 //vc:spec macro modeBeliefSound(s *State) bool = s.subCmdOf == "" || s.subCmdOf == devMode
 
 //vc:func (*State).setCmdConfMode
